@@ -692,6 +692,9 @@ class Speller:
     def case(self, w):
         if not w[0].isalpha() or self.rng.random() >= self.recase:
             return w
+        if 'k' in w and self.rng.random() < 0.25:
+            # U+212A KELVIN SIGN lower-cases to the ASCII letter k: a keyword spelled with it is that keyword
+            w = w.replace('k', '\u212a', 1)
         r = self.rng.random()
         if r < 0.4:
             return w.upper()
